@@ -37,7 +37,7 @@ ASSUMPTIONS = [
     'the generator stays inside the documented domain: BEGIN >= 16384, ORG <= BEGIN < END <= ORG+length, STACK >= 16398 and not within '
     '23297..23800 (its 14 bytes would hit the not-yet-executed loader at 23296 or interrupt-written system variables), START in RAM '
     'and not inside the loader code itself, CLEAR >= the documented minimum and < 49152 on 128K tapes, data above CLEAR (or in free '
-    'memory at least 320 bytes below it), --7ffd within 0..63, END <= 49152 on 128K tapes, screen files of exactly 6912 bytes; '
+    'memory at least 320 bytes below it), --7ffd within 0..63 and not 0x20..0x2F (paging locked with the editor ROM selected: its interrupt routine cannot page ROM 1 in and the machine crashes at the first interrupt after the EI of the bank loader, a race that depends on the tape length), END <= 49152 on 128K tapes, screen files of exactly 6912 bytes; '
     '-p 0 / -o 0 / -s 0 are outside it (STACK must be at least 16398)',
     'with --clear the stack pointer is "left alone": the check requires RAMTOP == CLEAR and SP within the 64 bytes below CLEAR, not an '
     'exact value',
@@ -54,6 +54,7 @@ SLOW_PY_BYTES = 900
 MAX_ALARMS_PER_SHARD = 6
 
 FINDING_PREFILL = 'C12-stack-prefill-skipped-when-stack-starts-below-data'
+FINDING_18 = 'C12-interrupt-between-ei-and-ret-uses-18-stack-bytes'
 
 PROGRESS = re.compile(r'\[[ 0-9.]+%\]\x08+')
 
@@ -160,8 +161,15 @@ def basic_program_problem(mem):
         lines += 1
     return None
 
-def classify(spec, problems):
+def classify(spec, problems, facts=None):
     """Mechanism predicates for defects known on the unchanged tree. Returns a finding id or None."""
+    if facts and spec['clear'] is None and facts.get('only_main_block_differs') and facts.get('bad_complete'):
+        # Everything is right except bytes in STACK-18..STACK-15: the ROM's SA/LD-RET routine (0x053F) does PUSH AF, EI, JR C, POP AF,
+        # RET; a frame interrupt accepted between EI and RET finds SP at STACK-4 (or STACK-2) and its 14 bytes of pushes and calls
+        # reach down to STACK-18 (STACK-16) - four more bytes than the documented "STACK-14 to STACK-1".
+        st = spec['eff_stack']
+        if facts['bad_addrs'] and all(st - 18 <= a < st - G.STACK_BYTES for a in facts['bad_addrs']):
+            return FINDING_18
     if spec['clear'] is None and G.prefill_overlap(spec) == 'head':
         # The last four stack bytes [STACK-4, STACK) begin below BEGIN (STACK = BEGIN+1..BEGIN+3): bin2tap must put the part of
         # (0x053F, START) that falls inside the data into the data block. The known defect leaves the data untouched, so the
@@ -176,12 +184,13 @@ def classify(spec, problems):
                 return FINDING_PREFILL
     return None
 
-def check_case(shard, spec, cfg, tag=''):
-    """Runs bin2tap then tap2sna and judges the snapshot. Returns (completed, bytes_compared)."""
-    files = G.write_inputs(spec, 'p')
-    tape = 'p.' + spec['fmt']
-    sna = 'p.' + cfg['out']
-    for f in (tape, 'p.z80', 'p.szx'):
+def check_case(shard, spec, cfg, tag='', stem='p'):
+    """Runs bin2tap then tap2sna and judges the snapshot. Returns (completed, bytes_compared).
+    stem: base name of the files; it becomes the title in the tape headers and so shifts the timing of everything after them."""
+    files = G.write_inputs(spec, stem)
+    tape = stem + '.' + spec['fmt']
+    sna = stem + '.' + cfg['out']
+    for f in (tape, stem + '.z80', stem + '.szx'):
         if os.path.exists(f):
             os.unlink(f)
     b2t = G.bin2tap_argv(spec, files, tape)
@@ -213,6 +222,7 @@ def check_case(shard, spec, cfg, tag=''):
     exp = G.expected(spec)
     mem = Mem(snap)
     problems = []
+    facts = None
     want128 = cfg['machine'] == 128
     if mem.is128 != want128:
         problems.append('snapshot machine is %s, simulated machine was %s' % (snap['machine'], cfg['machine']))
@@ -240,6 +250,8 @@ def check_case(shard, spec, cfg, tag=''):
     if mem.is128 == want128:
         n, bad, total = compare_main(mem, addr, data, exp['excluded'])
         compared += n
+        if total and not problems:
+            facts = {'only_main_block_differs': True, 'bad_complete': total == len(bad), 'bad_addrs': [b[0] for b in bad]}
         shard.inc('observed:bytes_compared', n)
         if total:
             problems.append('%d of %d compared bytes of the main block differ; first (address, original, snapshot): %s' % (total, n, bad))
@@ -292,7 +304,9 @@ def check_case(shard, spec, cfg, tag=''):
                     if total2:
                         problems.append('after returning to BASIC %d bytes of the main block differ: %s' % (total2, bad2))
     if problems:
-        fid = classify(spec, problems)
+        if facts and len(problems) > 1:
+            facts['only_main_block_differs'] = False
+        fid = classify(spec, problems, facts)
         what = '%s\n  %s\n  spec: %s\n  tap2sna said: %s' % ('; '.join(problems), ctx, G.describe(spec), ' | '.join(out.strip().splitlines()[-4:]))
         shard.violation(what, rp, fid)
         return False, compared
@@ -386,10 +400,22 @@ def run_known_witness(shard):
     shard.inc('witness:stack_prefill_' + ('loads correctly' if ok else 'fails'))
     shard.case(('witness', 'prefill'), False)
 
+def run_witness_18(shard):
+    """66 bytes at 40000, STACK = END+16, loaded without the ROM shortcut: the frame interrupt falls between EI and POP AF in SA/LD-RET
+    and the KEY-SCAN return address lands on STACK-18/-17, i.e. on the last two bytes of the data."""
+    spec = {'kind': '48stack', 'fmt': 'tap', 'machine': 48, 'bin': b'\x11' * 66, 'style': 'witness', 'org': 40000, 'begin': None, 'end': None,
+            'start': None, 'stack': 40082, 'clear': None, 'scr': None, 'banks': None, 'o7ffd': None, 'loader': None,
+            'eff_org': 40000, 'eff_begin': 40000, 'eff_end': 40066, 'eff_start': 40000, 'eff_stack': 40082}
+    cfg = {'python': 0, 'fast_load': 0, 'cmio': 0, 'accelerator': 'auto', 'dec_a': 3, 'pause': 1, 'machine': 48, 'out': 'z80', 'finish_tape': 0, 'use_start': True}
+    ok, compared = check_case(shard, spec, cfg, stem='a')     # found with this title; the phase of the interrupt depends on it
+    shard.inc('witness:18_stack_bytes_' + ('not reproduced' if ok else 'reproduced'))
+    shard.case(('witness', '18'), False)
+
 def run(shard, spec):
     asan = bool(spec.get('asan'))
     if not asan and spec['shard'] == 0:
         run_known_witness(shard)
+        run_witness_18(shard)
     n = spec.get('cases') or N_CASES[shard.tier]
     for case in range(spec['shard'], n, spec['of']):
         pspec, cfg = make_case(shard, case, asan)
